@@ -90,6 +90,17 @@ class FakeSock:
         if blen < nbytes:
             raise ValueError("buffer too small for requested bytes")
         waitall = bool(flags & 0x100)
+        if flags & 0x2:
+            # MSG_PEEK: what is queued (up to nbytes) without consuming it; 0 at EOF with nothing queued
+            avail = b"".join(self.chunks)[:nbytes]
+            if not avail:
+                if self.term == "rst":
+                    raise ConnectionResetError(errno.ECONNRESET, "Connection reset by peer")
+                if self.term != "fin":
+                    raise AssertionError(f"fake socket {self.cid}: peek would block (script error)")
+            mv = memoryview(buf).cast("B")
+            mv[:len(avail)] = avail
+            return len(avail)
         got = bytearray()
         while len(got) < nbytes:
             if not self.chunks:
@@ -225,7 +236,7 @@ def run_case(case):
 
     fsock = types.SimpleNamespace(
         socket=fake_socket_ctor, AF_INET=2, SOCK_STREAM=1, IPPROTO_TCP=6, SOMAXCONN=128, INADDR_ANY=0,
-        MSG_WAITALL=0x100, MSG_DONTWAIT=0x40, SHUT_RD=0, SHUT_WR=1, SHUT_RDWR=2, TCP_NODELAY=1, SOL_SOCKET=1, SO_REUSEADDR=2, getprotobyname=lambda n: 6)
+        MSG_WAITALL=0x100, MSG_DONTWAIT=0x40, MSG_PEEK=0x2, SHUT_RD=0, SHUT_WR=1, SHUT_RDWR=2, TCP_NODELAY=1, SOL_SOCKET=1, SO_REUSEADDR=2, getprotobyname=lambda n: 6)
 
     def fake_select(r, w, x, timeout=None):
         r = list(r)
